@@ -1116,6 +1116,23 @@ func (fr *Frame) binop(st *State, i *ssa.BinOp) Val {
 	case token.SUB:
 		return Val{T: app("-", x.T, y.T), S: srt}
 	case token.MUL:
+		// machine integers are mathematical integers in this model. One overflow is checked all the same: a 64-bit
+		// signed value multiplied by a large constant (unit conversions such as seconds -> nanoseconds), where real
+		// inputs (far-future timestamps) do leave the range. The product must fit.
+		if srt == "Int" {
+			if bt, ok := i.X.Type().Underlying().(*types.Basic); ok && (bt.Kind() == types.Int64 || bt.Kind() == types.Int) {
+				for _, pair := range [][2]ssa.Value{{i.X, i.Y}, {i.Y, i.X}} {
+					if c, ok := pair[0].(*ssa.Const); ok && c.Value != nil && c.Value.Kind() == constant.Int {
+						if cv, exact := constant.Int64Val(c.Value); exact && (cv >= 1<<20 || cv <= -(1<<20)) {
+							if _, isConst := pair[1].(*ssa.Const); !isConst {
+								prod := app("*", x.T, y.T)
+								fr.safe(st, and(app("<=", "(- 9223372036854775808)", prod), app("<=", prod, "9223372036854775807")), i.Pos(), "overflow", "64-bit multiplication by a large constant overflows")
+							}
+						}
+					}
+				}
+			}
+		}
 		return Val{T: app("*", x.T, y.T), S: srt}
 	case token.QUO:
 		if srt == "Real" {
